@@ -49,13 +49,15 @@ Theorem C11_only_owner_unlocks :
 Proof. exact sp_unlock_needs_own_pool. Qed.
 Print Assumptions C11_only_owner_unlocks.
 
-(* Round trip: lock by a new delegate, then unlock: the contract pays back exactly the value. *)
+(* Round trip: lock by a new delegate, then unlock: the contract pays back exactly the value
+   (the unlock can only be refused by the total-stake overflow test of EmitStakeEvent). *)
 Theorem C11_lock_then_unlock_returns :
   forall tx cbal sp vs sp1 trs1 minter,
   sp_sorted (sp_pools sp) -> sp_find (tx_client tx) (sp_pools sp) = None ->
   tx_value tx < 2 ^ 63 -> 0 <= sp_reward sp < 2 ^ 63 ->
   sp_stake_pool_lock tx cbal sp vs = Some (sp1, trs1) ->
-  exists sp2 trs2, sp_unlock minter (tx_to tx) (tx_client tx) None sp1 = Some (sp2, trs2) /\
+  exists sp2 trs2, sp_unlock_core minter (tx_to tx) (tx_client tx) None sp1 = Some (sp2, trs2) /\
+    (sp_stake sp2 <> None -> sp_unlock minter (tx_to tx) (tx_client tx) None sp1 = Some (sp2, trs2)) /\
     trs2 = sp_charge_part minter (tx_client tx) sp ++
            [{| tr_from := tx_to tx; tr_to := tx_client tx; tr_amount := tx_value tx |}] /\
     (forall id, sp_find id (sp_pools sp2) = sp_find id (sp_pools sp)).
